@@ -45,6 +45,7 @@ func fileAfter(content []byte, pre [][]byte, variant int) (*text.File, *parsley.
 	var rd *text.Reader
 	if variant&1 == 1 {
 		rd = text.NewReader(f)
+		_ = rd.IsEOF(f.Pos(0)) // the reader and the file are used before the file has its place
 	}
 	fs.AddFile(f)
 	if rd == nil {
